@@ -84,10 +84,11 @@ func vfPolyRegion(k, grid, cell int) (SDF2, SDF2, v2.Vec) {
 	st := v2.Vec{X: 3 * sz.X / float64(grid), Y: 3 * sz.Y / float64(grid)}
 	cx, cy := cell%grid, cell/grid
 	p := v2.Vec{X: vfReal("p.x"), Y: vfReal("p.y")}
-	vfAssume(p.X >= lo.X+float64(cx)*st.X)
-	vfAssume(p.X <= lo.X+float64(cx+1)*st.X)
-	vfAssume(p.Y >= lo.Y+float64(cy)*st.Y)
-	vfAssume(p.Y <= lo.Y+float64(cy+1)*st.Y)
+	slack := vfTol(0, 1e-9) // natively the model's point may sit a rounding error outside its cell
+	vfAssume(p.X >= lo.X+float64(cx)*st.X-slack)
+	vfAssume(p.X <= lo.X+float64(cx+1)*st.X+slack)
+	vfAssume(p.Y >= lo.Y+float64(cy)*st.Y-slack)
+	vfAssume(p.Y <= lo.Y+float64(cy+1)*st.Y+slack)
 	return fast, slow, p
 }
 
@@ -103,7 +104,7 @@ func vfPolySign(k, grid, cell int) {
 	for _, li := range slow.(*MeshSDF2Slow).mesh {
 		ws += li.winding(p)
 		dn := p.Sub(li.line[0]).Dot(v2.Vec{X: li.unitVector.Y, Y: -li.unitVector.X})
-		off = vfAnd(off, vfOr(dn >= 1e-6, dn <= -1e-6))
+		off = vfAnd(off, vfOr(dn >= vfTol(1e-6, 0.9e-6), dn <= -vfTol(1e-6, 0.9e-6)))
 	}
 	vfReach("polygon-sign")
 	vfAssume(off)
